@@ -49,14 +49,39 @@ def setRcb (cid id : Nat) (r : Rcb) : M Unit := modConn cid fun c => { c with rc
 def sortedRefs (s : Sub) : List (String × Nat × Nat) :=
   (s.refs.toArray.qsort (fun a b => a.1 < b.1)).toList
 
-/-- Go ranges over the `refs` map in an unspecified order; the model's order is a parameter
-    (`Gw.ord`): sorted, optionally reversed, rotated. No property depends on it. -/
-def orderedRefs (s : Sub) : M (List (String × Nat × Nat)) := do
-  let ord := (← get).ord
-  let l := sortedRefs s
-  let l := if ord % 2 == 1 then l.reverse else l
-  let k := if l.isEmpty then 0 else (ord / 2) % l.length
-  return l.drop k ++ l.take k
+def lcg (x : Nat) : Nat := (x * 6364136223846793005 + 1442695040888963407) % 18446744073709551616
+
+/-- A permutation of `l` determined by `seed`. -/
+def shuffle {α} (seed : Nat) : List α → List α
+  | [] => []
+  | l@(_ :: _) =>
+    let rec go (fuel : Nat) (seed : Nat) (l : List α) (acc : List α) : List α :=
+      match fuel, l with
+      | 0, _ => acc.reverse ++ l
+      | _, [] => acc.reverse
+      | fuel + 1, l =>
+        let s := lcg seed
+        let i := (s / 65536) % l.length
+        match l[i]? with
+        | some x => go fuel s (l.eraseIdx i) (x :: acc)
+        | none => acc.reverse ++ l
+    go l.length seed l []
+
+/-- Go ranges over maps in an unspecified order; the model's order is a parameter (`Gw.ord`):
+    0..5 = sorted, optionally reversed, rotated (one policy for every range); from 6 on every
+    range gets its own pseudo-random permutation. No property depends on it. -/
+def orderedList {α} (sorted : List α) (refsPolicy : Bool) : M (List α) := do
+  let g ← get
+  if g.ord < 6 then
+    if !refsPolicy then return sorted
+    let l := if g.ord % 2 == 1 then sorted.reverse else sorted
+    let k := if l.isEmpty then 0 else (g.ord / 2) % l.length
+    return l.drop k ++ l.take k
+  else
+    set { g with ordCtr := g.ordCtr + 1 }
+    return shuffle (lcg (g.ord * 1000003 + g.ordCtr * 7919)) sorted
+
+def orderedRefs (s : Sub) : M (List (String × Nat × Nat)) := orderedList (sortedRefs s) true
 
 /-- `wsConn.Access` → `Cache.Access`. -/
 def connAccess (cid uid : Nat) (t : Option Nat) : M Unit := do
@@ -220,7 +245,7 @@ def disposeConn (cid : Nat) : M Unit := do
   setConn { c with disposing := true, subs := [] }
   modify fun g => { g with live := g.live.filter (· != cid) }
   emit s!"U conn.{cname cid}"
-  for (_, uid) in sortKV c.subs do disposeSub cid uid
+  for (_, uid) in (← orderedList (sortKV c.subs) false) do disposeSub cid uid
 
 /-- The resource graph an HTTP GET renders: the connection's subscriptions with their load-time
     snapshots (`Subscription.model / collection / Error()`), references resolved by resource id. -/
@@ -532,7 +557,7 @@ partial def processEvent (cid uid : Nat) (ev : REv) : M Unit := do
   | .model =>
     match ev.name with
     | "change" =>
-      let ch := sortKV ev.changed
+      let ch ← orderedList (sortKV ev.changed) false
       let mut subs : List Nat := []
       let mut hasUnsent := false
       let mut failed := false
@@ -572,8 +597,9 @@ def setResource (cid uid : Nat) : M Unit := do
   let some (eid, rs) := s.res | return
   let r ← getRes eid rs
   modSub cid uid fun s => { s with queueFlag := s.queueFlag ||| 1 }
+  let mvals ← orderedList (sortKV r.model) false
   let vals : List Val := match s.typ with
-    | .model => (sortKV r.model).map (·.2)
+    | .model => mvals.map (·.2)
     | .collection => r.coll
     | _ => []
   if s.typ != .model && s.typ != .collection then
@@ -725,12 +751,43 @@ def runKItem (cid : Nat) (it : KItem) : M Unit := do
         | .result _ => replyErr cid req "system.internalError"
         | .resource rid => handleResourceResult cid req rid
       else handleCallAuthResponse cid req a
+    | .httpCall _ h ams cms =>
+      -- the write callback of temporaryConn: meta (access meta merged with the call's), error,
+      -- href, content — in that order of priority
+      let ms := match cms with
+        | some st => some st
+        | none => ams
+      let direct := match ms with
+        | some st => 300 ≤ st && st < 600
+        | none => false
+      if direct then
+        let st := ms.getD 0
+        if st < 400 then
+          match a with
+          | .resource rid => emit s!"H h{h} status={st} body=- loc={Enc.ridToPath rid "/api/"}"
+          | _ => emit s!"H h{h} status={st} body=-"
+        else
+          let code := match a with
+            | .err e => e
+            | _ => statusError st
+          emit s!"H h{h} status={st} body=err:{code}"
+        disposeConn cid
+      else
+        match a with
+        | .err e => httpRespondErr cid h e
+        | .resource rid =>
+          emit s!"H h{h} status=200 body=- loc={Enc.ridToPath rid "/api/"}"
+          disposeConn cid
+        | .result p =>
+          if p == "null" then emit s!"H h{h} status=204 body=-"
+          else emit s!"H h{h} status=200 body={p}"
+          disposeConn cid
     | .access _ => pure ()
   | .tokenEvent token tid =>
     let c ← getConn cid
     setConn { c with tid := tid, token := token, hasToken := true }
     if c.hasToken then
-      for (_, uid) in sortKV c.subs do reaccess cid uid none
+      for (_, uid) in (← orderedList (sortKV c.subs) false) do reaccess cid uid none
   | .httpGet h rid =>
     -- GetHTTPSubscription: subscribe, then a separate access request flagged isHttp
     match ← connSubscribe cid rid true none with
@@ -757,6 +814,34 @@ def runKItem (cid : Nat) (it : KItem) : M Unit := do
       match a.canGet with
       | some e => httpRespondErr cid h e
       | none => onReady cid uid (.httpGet h uid ms)
+  | .httpCall h rid action params =>
+    -- CallHTTPResource: a subscription object that is not registered, one access request flagged isHttp
+    let uid ← newSubObj cid rid none
+    let c ← getConn cid
+    let s ← getSub cid uid
+    sendRequest s.name s!"access.{s.name}" (reqPayloadH cid c.token s.query "" true)
+      (fun eid => .httpCallAccess eid ⟨cid, uid⟩ h action params)
+  | .httpCallAccess h uid action params a ms =>
+    let direct := match ms with
+      | some st => 300 ≤ st && st < 600
+      | none => false
+    if direct then
+      let st := ms.getD 0
+      if st < 400 then emit s!"H h{h} status={st} body=-"
+      else
+        let code := match a.err with
+          | some e => e
+          | none => statusError st
+        emit s!"H h{h} status={st} body=err:{code}"
+      disposeConn cid
+    else
+      match a.canCallE action with
+      | some e => httpRespondErr cid h e
+      | none =>
+        let c ← getConn cid
+        let s ← getSub cid uid
+        sendRequest s.name s!"call.{s.name}.{action}" (reqPayloadH cid c.token s.query params true)
+          (fun eid => .call eid (.httpCall cid h ms none))
   | .tokenReset tids subject =>
     let c ← getConn cid
     if c.tid == "" || !tids.contains c.tid then return
